@@ -41,6 +41,12 @@ type pubCase struct {
 	SameDoc    bool   `json:"same_doc,omitempty"`
 	BeforeVis  string `json:"before_vis,omitempty"`
 	BeforeMask int    `json:"before_mask,omitempty"`
+	// Edit: (with SameDoc) between the two publishes the document object is edited through the
+	// public API; the child then publishes Text, the GEDCOM text of the edited document
+	Edit  string `json:"edit,omitempty"` // add-name | add-birth | delete-person | add-child | marry
+	EditA int    `json:"edit_a,omitempty"`
+	EditB int    `json:"edit_b,omitempty"`
+	Text  string `json:"text,omitempty"`
 	// FailFrom > 0 (race children only): every write from this one on fails
 	FailFrom int  `json:"fail_from,omitempty"`
 	Hostile  bool `json:"hostile,omitempty"`
@@ -524,6 +530,19 @@ func TestPublishChild(t *testing.T) {
 	var res *pub.Result
 	for r := 0; r < reps; r++ {
 		var f *harness.Failure
+		if c.Text != "" {
+			doc, derr := gedcom.NewDocumentFromString(c.Text)
+			if derr != nil {
+				fmt.Printf("CHILD-FAILURE text-rejected\n")
+				return
+			}
+			res = pub.Publish(doc, pub.FromMask(c.Mask, c.Vis, jobs))
+			if res.Panic != "" || len(res.Panics) > 0 {
+				fmt.Printf("CHILD-FAILURE publish-panic\n")
+				return
+			}
+			continue
+		}
 		res, f = publish(c.Doc, c.Vis, c.Mask, jobs, -c.FailFrom)
 		if f != nil {
 			fmt.Printf("CHILD-FAILURE %s\n", f.Sig)
@@ -555,7 +574,7 @@ func TestCheckHistory(t *testing.T) {
 	defer os.RemoveAll(dir)
 	self, _ := os.Executable()
 	s := harness.NewSub("history-across-processes",
-		"a publish that follows a history in this process - another document A published first (two thirds), or the SAME document object published first with another visibility and page-group mask (one third) - versus the same publish alone in a fresh child process (the same test binary): the two sites must be byte-identical; non-trivial = the documents have >= 2 people")
+		"a publish that follows a history in this process - another document A published first (two thirds), or the SAME document object published first with another visibility and page-group mask (one third; a third of those edit the document through the public API in between, and the child publishes the text of the edited document) - versus the same publish alone in a fresh child process (the same test binary): the two sites must be byte-identical; non-trivial = the documents have >= 2 people")
 	s.Rapid(t, harness.Share(harness.Pick(160, 5000)), 192, func(rt *rapid.T) {
 		c := genCase(rt)
 		c.Jobs = []int{1}
@@ -564,6 +583,10 @@ func TestCheckHistory(t *testing.T) {
 			c.BeforeVis = rapid.SampledFrom([]string{"show", "hide", "placeholder"}).Draw(rt, "beforeVis")
 			// (61 = everything but the places, 62 = everything but the individuals)
 			c.BeforeMask = rapid.SampledFrom([]int{63, 63, 61, 61, 1, 2, 62, 47}).Draw(rt, "beforeMask")
+			if rapid.IntRange(0, 2).Draw(rt, "edited") == 1 {
+				c.Edit = rapid.SampledFrom([]string{"add-name", "add-birth", "delete-person", "add-child", "marry"}).Draw(rt, "edit")
+				c.EditA, c.EditB = rapid.IntRange(0, 9).Draw(rt, "editA"), rapid.IntRange(0, 9).Draw(rt, "editB")
+			}
 		} else {
 			c.Before = genDoc(rt, true)
 		}
@@ -578,10 +601,65 @@ func TestCheckHistory(t *testing.T) {
 	})
 }
 
+// applyPubEdit edits the live document between two publishes.
+func applyPubEdit(doc *gedcom.Document, c pubCase) (ok bool) {
+	defer func() {
+		if recover() != nil {
+			ok = false
+		}
+	}()
+	inds, fams := doc.Individuals(), doc.Families()
+	if len(inds) == 0 {
+		return false
+	}
+	x, y := inds[c.EditA%len(inds)], inds[c.EditB%len(inds)]
+	switch c.Edit {
+	case "add-name":
+		x.AddName("Renamed /Afterwards/")
+	case "add-birth":
+		x.AddBirthDate("7 Jul 1777")
+	case "delete-person":
+		doc.DeleteNode(x)
+	case "add-child":
+		if len(fams) == 0 {
+			return false
+		}
+		fams[c.EditB%len(fams)].AddChild(x)
+	case "marry":
+		doc.AddFamilyWithHusbandAndWife("FNEW", x, y)
+	default:
+		return false
+	}
+	return true
+}
+
 // historyCheck publishes the case after its history in this process and compares the site
 // with the one a fresh child process (the same test binary) produces for the case alone.
 func historyCheck(c pubCase, self, dir string) *harness.Failure {
-	out, err := runChild(self, dir, pubCase{Doc: c.Doc, Vis: c.Vis, Mask: c.Mask, Jobs: []int{1}})
+	// the live publishing first: with an edit in the history, what the child has to publish is
+	// only known afterwards
+	var live *pub.Result
+	childCase := pubCase{Doc: c.Doc, Vis: c.Vis, Mask: c.Mask, Jobs: []int{1}}
+	if c.SameDoc {
+		doc, derr := gedcom.NewDocumentFromString(c.Doc.Text())
+		if derr != nil {
+			return nil
+		}
+		if r0 := pub.Publish(doc, pub.FromMask(c.BeforeMask, c.BeforeVis, 1)); r0.Panic != "" || len(r0.Panics) > 0 {
+			return nil
+		}
+		if c.Edit != "" {
+			if !applyPubEdit(doc, c) {
+				return nil
+			}
+			childCase.Text = doc.String()
+		}
+		live = pub.Publish(doc, pub.FromMask(c.Mask, c.Vis, 1))
+		if live.Panic != "" || len(live.Panics) > 0 {
+			return nil
+		}
+	}
+	out, err := runChild(self, dir, childCase)
 	m := regexp.MustCompile(`CHILD-DIGEST (.*)`).FindStringSubmatch(out)
 	if m == nil {
 		if strings.Contains(out, "CHILD-FAILURE") {
@@ -595,17 +673,10 @@ func historyCheck(c pubCase, self, dir string) *harness.Failure {
 	what := "document B published after document A"
 	if c.SameDoc {
 		what = fmt.Sprintf("the document published (%s, mask %d) after it had been published with other options (%s, mask %d)", c.Vis, c.Mask, c.BeforeVis, c.BeforeMask)
-		doc, derr := gedcom.NewDocumentFromString(c.Doc.Text())
-		if derr != nil {
-			return nil
+		if c.Edit != "" {
+			what += fmt.Sprintf(" and then edited through the public API (%s %d %d)", c.Edit, c.EditA, c.EditB)
 		}
-		if r0 := pub.Publish(doc, pub.FromMask(c.BeforeMask, c.BeforeVis, 1)); r0.Panic != "" || len(r0.Panics) > 0 {
-			return nil
-		}
-		res = pub.Publish(doc, pub.FromMask(c.Mask, c.Vis, 1))
-		if res.Panic != "" || len(res.Panics) > 0 {
-			return nil
-		}
+		res = live
 	} else {
 		if c.Before == nil {
 			return nil
